@@ -72,17 +72,17 @@ Theorem C04_known_names_as_operands : forall O, is_space O 32%N = true ->
 Proof. exact layout_parses_derivation. Qed.
 Print Assumptions C04_known_names_as_operands.
 
-(* over any table Licensing() accepted, none of whose names holds an operator word or a parenthesis: the license a name resolves
+(* over any table Licensing() accepted (names holding operator words or parentheses included): the license a name resolves
    to is the one that declares it - a text with the lower-cased words of a key or alias of an entry (any letter case, any white
    space) parses to that entry's symbol and renders as its canonical key. validate_symbols is what makes the owner unique
    (accepted_names_unambiguous). *)
 Require Import Proofs.Strings Proofs.Accepted.
 Theorem C04_names_of_an_accepted_table : forall O, is_space O 32%N = true ->
   (forall c, In c [97; 110; 100; 111; 114; 119; 105; 116; 104; 40; 41]%N -> is_space O c = false /\ lower_ch O c = [c]) ->
+  (is_wordch O 40%N = false /\ is_wordch O 41%N = false) ->
   (forall c, is_space O c = true -> lower_ch O c = [c]) ->
   (forall c, is_space O c = false -> lower_ch O c <> [] /\ nospace O (lower_ch O c)) ->
   forall raw T : list entry, new_licensing O raw = Ok T ->
-  (forall n v, In (n, v) (flat_map (entry_adds O) T) -> forall w, In w (lwords O n) -> is_keyword_str w = false) ->
   forall e n v text, In e T -> In (n, v) (entry_adds O e) -> lwords O n <> [] -> lwords O text = lwords O n ->
   parse O T false false false text = Ok (Some (Lit (Plain (entry_sym e)))) /\
   render (Lit (Plain (entry_sym e))) = ekey e /\
@@ -93,11 +93,31 @@ Print Assumptions C04_names_of_an_accepted_table.
 (* strict parsing gives the same for a name of a license that is not an exception *)
 Theorem C04_names_of_an_accepted_table_strict : forall O, is_space O 32%N = true ->
   (forall c, In c [97; 110; 100; 111; 114; 119; 105; 116; 104; 40; 41]%N -> is_space O c = false /\ lower_ch O c = [c]) ->
+  (is_wordch O 40%N = false /\ is_wordch O 41%N = false) ->
   (forall c, is_space O c = true -> lower_ch O c = [c]) ->
   (forall c, is_space O c = false -> lower_ch O c <> [] /\ nospace O (lower_ch O c)) ->
   forall raw T : list entry, new_licensing O raw = Ok T ->
-  (forall n v, In (n, v) (flat_map (entry_adds O) T) -> forall w, In w (lwords O n) -> is_keyword_str w = false) ->
   forall e n v text, In e T -> In (n, v) (entry_adds O e) -> lwords O n <> [] -> lwords O text = lwords O n -> eexc e = false ->
   parse O T false true false text = Ok (Some (Lit (Plain (entry_sym e)))).
 Proof. exact accepted_name_resolves_strict. Qed.
 Print Assumptions C04_names_of_an_accepted_table_strict.
+
+(* non-vacuity, and the case the repair of D11 is about: A declares the alias "gpl (v2)", mit declares "mit or later" (an operator
+   word inside a name); Licensing() accepts the table, and "GPL(V2)" - other case, no white space around the parentheses - is A *)
+Require Import Model.Index Proofs.AsciiOracle.
+Definition eA4 : entry := {| ekey := [65]%N; ealiases := [[103; 112; 108; 32; 40; 118; 50; 41]%N]; eexc := false |}.
+Definition T4 : list entry :=
+  [ eA4; {| ekey := [109; 105; 116]%N; ealiases := [[109; 105; 116; 32; 111; 114; 32; 108; 97; 116; 101; 114]%N]; eexc := false |} ].
+Example C04_example_parenthesised_alias :
+  parse ascii_oracle T4 false false false [71; 80; 76; 40; 86; 50; 41]%N = Ok (Some (Lit (Plain (entry_sym eA4)))) /\
+  render (Lit (Plain (entry_sym eA4))) = ekey eA4 /\
+  validate ascii_oracle T4 false [71; 80; 76; 40; 86; 50; 41]%N = {| normalized := Some (ekey eA4); errors := []; invalid_symbols := [] |}.
+Proof.
+  apply (C04_names_of_an_accepted_table ascii_oracle ascii_sp_is_space ascii_kw_plain ascii_paren_not_word ascii_lower_space
+           ascii_lower_nospace T4 T4) with (n := [103; 112; 108; 32; 40; 118; 50; 41]%N) (v := VSym (entry_sym eA4)).
+  - vm_compute. reflexivity.
+  - left. reflexivity.
+  - vm_compute. right. left. reflexivity.
+  - vm_compute. discriminate.
+  - vm_compute. reflexivity.
+Qed.
